@@ -227,3 +227,25 @@ Example calc_logical_all :
   eval_chain nat ex_phys true None (CEnd (RG 0 (-1) 1 false)) 0%nat (bs_of_N 3) (bs_of_N 1) empty2
     = EAcc true (bs_of_N 3, bs_of_N 1).
 Proof. vm_compute. reflexivity. Qed.
+
+(* ================= lstopo --of synthetic ================= *)
+(* output_synthetic() (1024-byte stack buffer, then a heap buffer of length+1 bytes) writes exactly the
+   complete library export followed by a newline, for EVERY export text of EVERY length, given the
+   snprintf contract of hwloc_topology_export_synthetic (C07).  Tied to the tool by checks/c20.py on
+   export lengths 1022..1026 and beyond (bytes on stdout and in a file, all export flags). *)
+Theorem lstopo_synthetic_is_export : forall t, Forall (fun b => b <> 0%N) t -> output_synthetic t = t ++ NL.
+Proof. exact output_synthetic_is_export. Qed.
+Print Assumptions lstopo_synthetic_is_export.
+
+(* why the second buffer length matters: with buflen = length the last character is lost as soon as the
+   export has 1024 characters (what seeded/C20b does; caught by the byte comparison) *)
+Theorem lstopo_synthetic_second_buflen_matters : forall t, Forall (fun b => b <> 0%N) t -> (1024 <= List.length t)%nat ->
+  output_synthetic_gen (fun l => l) t = removelast t ++ NL.
+Proof. exact output_synthetic_short_second_call. Qed.
+Print Assumptions lstopo_synthetic_second_buflen_matters.
+
+Example lstopo_synthetic_non_vacuous :
+  output_synthetic (repeat 65%N 1024) = repeat 65%N 1024 ++ NL
+  /\ output_synthetic (repeat 65%N 1023) = repeat 65%N 1023 ++ NL
+  /\ List.length (output_synthetic_gen (fun l => l) (repeat 65%N 1024)) = 1024%nat.
+Proof. vm_compute. repeat split. Qed.
